@@ -124,6 +124,26 @@ def finish(res: Result, tier: str, seed: int, t0: float, explanation: str, assum
             listed.append(f)
         else:
             new.append(f)
+    # safety net for shape rules (DESIGN.md 7.1): withhold the verdict inside restructured anchor functions
+    prog = getattr(res, "prog", None)
+    if prog is not None and new and not os.environ.get("PVLINT_NO_NET"):
+        from .familiar import subject_to_net, unfamiliar
+        kept = []
+        for f in new:
+            if not subject_to_net(f.rule):
+                kept.append(f)
+                continue
+            where = f.key.split("::")[0]
+            why = None
+            try:
+                why = unfamiliar(prog, where, f.key.split("::", 1)[1] if "::" in f.key else "")
+            except Exception:
+                why = None
+            if why:
+                res.errors.append(f"UNDECIDED {f.rule} at {f.loc}: {why}; the shape rule's verdict is withheld ({f.msg[:140]})")
+            else:
+                kept.append(f)
+        new = kept
 
     code = 0
     out = []
